@@ -124,19 +124,26 @@ def r2_key_only_for_call_next(ctx):
                 for t in st.targets:
                     if isinstance(t, ast.Name):
                         flags[t.id] = st
+    roles = A.rewriter_roles(ctx.repo)
+    ctx.require("code" in roles, "the re-compiler no longer binds the method's own code under a name handed to the rewriter")
+    code_attr = roles["code"][0]
+
+    def mentions_code(a):
+        return any(is_self_attr(x, code_attr) for x in ast.walk(a))
+
     inserts = []
     for st in all_stmts(vc.node):
         if isinstance(st, ast.If):
             for b in st.body:
                 for c in ast.walk(b):
-                    if isinstance(c, ast.Call) and isinstance(c.func, ast.Attribute) and c.func.attr == "insert" and any("code_mangled" in src(a) for a in c.args):
+                    if isinstance(c, ast.Call) and isinstance(c.func, ast.Attribute) and c.func.attr == "insert" and any(mentions_code(a) for a in c.args):
                         inserts.append((st, c))
     uncond = [
         c
         for st in all_stmts(vc.node)
         if isinstance(st, ast.Expr)
         for c in [st.value]
-        if isinstance(c, ast.Call) and isinstance(c.func, ast.Attribute) and c.func.attr == "insert" and any("code_mangled" in src(a) for a in c.args)
+        if isinstance(c, ast.Call) and isinstance(c.func, ast.Attribute) and c.func.attr == "insert" and any(mentions_code(a) for a in c.args)
         and not any(c is ic for _, ic in inserts)
     ]
     ok = bool(inserts) and not uncond
@@ -272,12 +279,12 @@ def r4_whole_ranks(ctx):
                 ctx.touch(m)
                 for g in c.generators:
                     n += 1
-                    whole = isinstance(g.iter, ast.Name)
+                    whole = dotted(g.iter) is not None
                     if whole:
                         # and that name is itself built from a whole collection
                         for a in ast.walk(m.node):
-                            if isinstance(a, ast.Assign) and any(isinstance(t, ast.Name) and t.id == g.iter.id for t in a.targets) and isinstance(a.value, (ast.ListComp, ast.SetComp)):
-                                if not all(isinstance(gg.iter, ast.Name) for gg in a.value.generators):
+                            if isinstance(a, ast.Assign) and any(isinstance(t, ast.Name) and t.id == dotted(g.iter) for t in a.targets) and isinstance(a.value, (ast.ListComp, ast.SetComp)):
+                                if not all(dotted(gg.iter) is not None for gg in a.value.generators):
                                     whole = False
                     ctx.ob(
                         f"{m.key}:codes-over:{short(g.iter, 30)}",
